@@ -64,6 +64,7 @@ package safehtml
 //@ func URLSetSanitized(str string) (r URLSet)
 //@   serves C12 C08
 //@   ensures nonempty: len(r.str) > 0
+//@   defines seqeq(r.str, urlsetsan(str))
 //@   loop 1
 //@     invariant len(str) >= 0
 //@     invariant len(buffer) == slen(seq(buffer))
